@@ -9,7 +9,8 @@ From PV Require Import Common.Util Interp.Flow.
 (* ---------- the scripted host used by the harness ---------- *)
 (* site k has a script (list of answers, 0 = false); the host state holds what is left of each script.
    c(k) / It(k).__next__ pop one answer; an exhausted script answers false and (for c) starts over;
-   It(k) starts its script afresh. *)
+   It(k) starts its script afresh.  A class-name site HCk is bound to the class (value - 1; 0 = the empty tuple) at
+   the head of what is left of its script; sw(k) drops that head, starting over when nothing would be left. *)
 Definition scripts := list (N * list N).
 Fixpoint sc_get (k : N) (t : scripts) : list N :=
   match t with [] => [] | (j, l) :: r => if N.eqb j k then l else sc_get k r end.
@@ -48,6 +49,8 @@ Definition chost (full : scripts) (mg : mgr_table) (ms : msg_table) (ct : cls_ta
   h_enter := fun k cur => (fst (mgr_get k mg), cur);
   h_exit := fun k _ cur => (snd (mgr_get k mg), cur);
   h_msg := fun j cur => (msg_get j ms, cur);
+  h_sw := fun k cur => match sc_get k cur with _ :: (_ :: _) as r => sc_set k r cur | _ => sc_set k (sc_get k full) cur end;
+  h_hget := fun k cur => match sc_get k cur with v :: _ => if N.eqb v 0 then [] else [N.pred v] | [] => [] end;
   h_sub := cls_sub ct
 |}.
 
@@ -75,7 +78,7 @@ Definition event_eqb (a b : event) : bool :=
   | EvExit k i, EvExit k' i' => N.eqb k k' && oexc_eqb i i'
   | EvP k n v, EvP k' n' v' => N.eqb k k' && N.eqb n n' && oexc_eqb v v'
   | EvRet k v, EvRet k' v' => N.eqb k k' && oN_eqb v v'
-  | EvMsg j, EvMsg j' => N.eqb j j'
+  | EvMsg j, EvMsg j' | EvSw j, EvSw j' => N.eqb j j'
   | _, _ => false
   end.
 Definition cres_eqb (a b : call_result) : bool :=
